@@ -447,7 +447,24 @@ func main() {
 	}
 	checkFailed("live", e.Get)
 	reg.GracefulShutdown(context.Background())
+	// last sequential client calls: fill one memtable so that the background flush goroutine has
+	// just been signalled when Close starts (Close races no client call, but it does run next to
+	// the engine's own goroutines)
+	{
+		r := rand.New(rand.NewSource(*seed))
+		ctr := 0
+		for written := int64(0); written <= *mem+*mem/2; {
+			v := val(r, 9999, &ctr)
+			if err := e.Put(key(r, *nkeys), v); err != nil {
+				break
+			}
+			written += int64(len(v)) + 16
+		}
+	}
 	cerr := e.Close()
+	// let a background flush that Close did not wait for run to its end, so that the race
+	// detector sees both sides of a Close/flush race
+	time.Sleep(300 * time.Millisecond)
 	if nFailed > 0 && cerr == nil {
 		if e2, err := engine.NewEngineFacade(*dir); err == nil {
 			checkFailed("reopen", e2.Get)
